@@ -96,6 +96,40 @@ def id_type(pl, sa):
     return pl
 
 
+def id_case(pl, sa):
+    """the identity with the case of every letter-range octet inverted (another identity, however similar it looks)"""
+    m = _msg()
+    for p in pl:
+        if isinstance(p, (m.PayloadIDi, m.PayloadIDr)):
+            p.id_data = bytes(p.id_data).swapcase()
+    return pl
+
+
+def sa_spi_short(pl, sa):
+    m = _msg()
+    for p in pl:
+        if isinstance(p, m.PayloadSA):
+            pr = p.proposals[0]
+            p.proposals[0] = m.Proposal(pr.num, pr.protocol_id, bytes(pr.spi)[:2], list(pr.transforms))
+    return pl
+
+
+def as_new_child_request(pl, sa):
+    """the payloads of a fresh CREATE_CHILD_SA request for the first protect entry, whatever the message was going to
+    carry (used together with an 'exch_36' deviation: a CREATE_CHILD_SA request on an IKE_SA that should only be
+    deleted any more)"""
+    import os
+    m = _msg()
+    pr = sa.configuration.protect[0]
+    prop = pr.proposal
+    out = [m.PayloadSA([m.Proposal(1, prop.protocol_id, os.urandom(4), list(prop.transforms))]),
+           m.PayloadNONCE(), m.PayloadTSi([pr.my_ts]), m.PayloadTSr([pr.peer_ts])]
+    import xfrm
+    if pr.mode == xfrm.Mode.TRANSPORT:
+        out.append(m.PayloadNOTIFY(0, m.PayloadNOTIFY.Type.USE_TRANSPORT_MODE, b'', b''))
+    return out
+
+
 def auth_garbage(pl, sa):
     m = _msg()
     for p in pl:
@@ -187,7 +221,8 @@ def add_error_notify(pl, sa):
 MUTATORS = {
     'sa_extra_transform': sa_extra_transform, 'sa_unsupported': sa_unsupported, 'sa_spi_long': sa_spi_long,
     'ts_wider': ts_wider, 'ts_other_port': ts_other_port, 'ts_elsewhere': ts_elsewhere, 'mode_flip': mode_flip,
-    'id_data': id_data, 'id_type': id_type, 'auth_garbage': auth_garbage, 'auth_method': auth_method,
+    'id_data': id_data, 'id_type': id_type, 'id_case': id_case, 'sa_spi_short': sa_spi_short,
+    'as_new_child_request': as_new_child_request, 'auth_garbage': auth_garbage, 'auth_method': auth_method,
     'no_additional_sas': _only_notify('NO_ADDITIONAL_SAS'), 'temporary_failure': _only_notify('TEMPORARY_FAILURE'),
     'no_proposal_chosen': _only_notify('NO_PROPOSAL_CHOSEN'), 'ts_unacceptable': _only_notify('TS_UNACCEPTABLE'),
     'child_sa_not_found': _only_notify('CHILD_SA_NOT_FOUND'),
@@ -214,7 +249,8 @@ class Deviance:
         self.applied = []
 
     def add(self, ep_name, name, exch=None, is_request=None):
-        if name not in MUTATORS and not name.startswith('exch_'):
+        if name not in MUTATORS and not name.startswith('exch_') and not (
+                name.startswith('stateless_') and name[len('stateless_'):] in MUTATORS):
             raise ValueError(name)
         self.pending.setdefault(ep_name, []).append((name, EXCH.get(exch, exch), is_request))
 
@@ -237,13 +273,26 @@ class Deviance:
         if ep is None or not self.pending.get(ep.name):
             return payloads
         for i, (name, exch, isreq) in enumerate(self.pending[ep.name]):
-            if name.startswith('exch_'):
+            if name.startswith(('exch_', 'stateless_')):
                 continue
             if (exch is None or int(exchange_type) == exch) and (isreq is None or bool(isreq) == is_request):
                 self.pending[ep.name].pop(i)
                 self.applied.append((ep.name, name, int(exchange_type), is_request))
                 return MUTATORS[name](list(payloads), sa)
         return payloads
+
+    def _stateless(self, sa, message):
+        """'stateless_<mutator>' deviations answer a REQUEST without executing the handler at all - what a responder
+        does that rejects statelessly (RFC 7296 1.3: INVALID_KE_PAYLOAD leaves no state), unlike pyikev2's own"""
+        ep = self.sim.current
+        if ep is None:
+            return None
+        for i, (name, exch, isreq) in enumerate(self.pending.get(ep.name, [])):
+            if name.startswith('stateless_') and (exch is None or int(message.exchange_type) == exch):
+                self.pending[ep.name].pop(i)
+                self.applied.append((ep.name, name, int(message.exchange_type), False))
+                return MUTATORS[name[len('stateless_'):]]([], sa)
+        return None
 
     def __enter__(self):
         import ikesa
@@ -268,6 +317,16 @@ class Deviance:
             return m
         self._p = [mock.patch.object(ikesa.IkeSa, 'generate_request', generate_request),
                    mock.patch.object(ikesa.IkeSa, 'generate_response', generate_response)]
+        for hname in ('process_create_child_sa_request', 'process_informational_request', 'process_ike_auth_request',
+                      'process_ike_sa_init_request'):
+            orig = getattr(ikesa.IkeSa, hname)
+
+            def handler(self_, message, _orig=orig):
+                pl = dev._stateless(self_, message)
+                if pl is not None:
+                    return gres(self_, message.exchange_type, pl)
+                return _orig(self_, message)
+            self._p.append(mock.patch.object(ikesa.IkeSa, hname, handler))
         for p in self._p:
             p.start()
         return self
